@@ -141,6 +141,7 @@ def make_map_contract(fam):
                 return
             for nm, g, w in zip(names, got, want):
                 cx.oblige(f"post.map.{nm}", T.eq(g, w), "post", f"scipy slot {nm} is the documented parameter")
+            cx.oblige("frame.map", not self.obj.writes, "frame", f"computing the scipy parameters writes no attribute (wrote: {self.obj.writes})")
             if fam == NORMFIT and pat["mu_norm"]:
                 # property C05: mean/std of the norm-fit log-normal are mu_norm / sigma_norm
                 s, _, scale = [T.zr(t) for t in got]
@@ -154,7 +155,7 @@ def make_map_contract(fam):
         def replay(self, case, ob):
             return replay_map(fam, case, ob)
     Map.__name__ = f"Map_{fam}"
-    return contract(D + fam + "._get_scipy_parameters", ["C05", "C08"], _map_cases(fam), name=f"map.{fam}")(Map)
+    return contract(D + fam + "._get_scipy_parameters", ["C05", "C08", "C19"], _map_cases(fam), name=f"map.{fam}")(Map)
 
 
 def replay_map(fam, case, ob):
@@ -313,11 +314,14 @@ def make_method_contract(fam, meth):
                 cx.oblige("post.no_nan", T.lnot(elem_nan(r, idx)), "post", "pdf never returns nan for finite x")
             cx.oblige(f"post.{meth}.value", T.eq(elem(r, idx), want), "post",
                       f"{fam}.{meth} = scipy.stats.{sname}.{scipy_meth} with the documented slots, same map as the other methods")
+            cx.oblige(f"frame.{meth}", not self.obj.writes, "frame", f"evaluation writes no attribute of the distribution (wrote: {self.obj.writes})")
+            if isinstance(self.x, SArr):
+                cx.oblige(f"frame.{meth}.x", self.x.buf.writes == 0, "frame", "the caller's array is not written")
 
         def replay(self, case, ob):
             return replay_method(fam, meth, case, ob)
     M.__name__ = f"Method_{fam}_{meth}"
-    return contract(D + fam + "." + meth, ["C05", "C08"], _method_cases(fam), name=f"post.{fam}.{meth}")(M)
+    return contract(D + fam + "." + meth, ["C05", "C08", "C19"], _method_cases(fam), name=f"post.{fam}.{meth}")(M)
 
 
 def replay_method(fam, meth, case, ob):
@@ -348,3 +352,432 @@ def replay_method(fam, meth, case, ob):
 for _fam in ALL_FAMS:
     for _m in METHODS:
         make_method_contract(_fam, _m)
+
+
+# =============================================================================== post.ctor.<Family>  (C11)
+def make_ctor_contract(fam):
+    ps = fam_params(fam)
+
+    class Ctor(Contract):
+        """__init__: a parameter declared fixed (f_<name>) has that value from construction on"""
+
+        def case_label(self, case):
+            return "fixed=" + "".join("1" if case["pattern"][p] else "0" for p in ps)
+
+        def inputs(self, itp, case):
+            cx = itp.cx
+            self.obj = SObj(D + fam, owner="call")
+            self.plain = {p: real(cx, f"arg.{p}") for p in ps}
+            self.fixed = {p: (real(cx, f"arg.f_{p}") if case["pattern"][p] else None) for p in ps}
+            kw = dict(self.plain)
+            kw.update({"f_" + p: v for p, v in self.fixed.items()})
+            return [self.obj], kw
+
+        def post(self, itp, case, inp, out):
+            cx = itp.cx
+            if out.outcome != "return":
+                cx.oblige("post.returns", False, "post", f"raised {out.exc}")
+                return
+            for p in ps:
+                want = self.fixed[p] if self.fixed[p] is not None else self.plain[p]
+                try:
+                    got = itp.get_attr(self.obj, p)
+                except PyRaise:
+                    cx.oblige(f"post.ctor.{p}", False, "post", "attribute missing")
+                    continue
+                cx.oblige(f"post.ctor.{p}", T.eq(term_of(got), term_of(want)) if is_scalar(got) else False, "post",
+                          f"{p} = f_{p} if given else {p}")
+                try:
+                    gf = itp.get_attr(self.obj, "f_" + p)
+                except PyRaise:
+                    cx.oblige(f"post.ctor.f_{p}", False, "post", "attribute missing")
+                    continue
+                if self.fixed[p] is None:
+                    cx.oblige(f"post.ctor.f_{p}", gf is None, "post")
+                else:
+                    cx.oblige(f"post.ctor.f_{p}", T.eq(term_of(gf), term_of(self.fixed[p])) if is_scalar(gf) else False, "post")
+
+        def replay(self, case, ob):
+            import virocon.distributions as vd
+            cls = getattr(vd, fam)
+            kw = {p: 1.25 + i for i, p in enumerate(ps)}
+            fx = {"f_" + p: 3.5 + i for i, p in enumerate(ps) if case["pattern"][p]}
+            inst = cls(**kw, **fx)
+            bad = [p for p in ps if getattr(inst, p) != (fx.get("f_" + p, kw[p]))]
+            return {"confirmed": bool(bad), "detail": f"{fam}(**{kw}, **{fx}) has {[(p, getattr(inst, p)) for p in ps]}"}
+    Ctor.__name__ = f"Ctor_{fam}"
+    return contract(D + fam + ".__init__", ["C11"], [dict(pattern=pat) for pat in all_none_patterns(ps)], name=f"ctor.{fam}")(Ctor)
+
+
+for _fam in ALL_FAMS:
+    make_ctor_contract(_fam)
+
+
+# =============================================================================== lemma.explicit_equals_constructed (C05)
+def _lemma_cases(fam):
+    ps = fam_params(fam)
+    cases = []
+    pats = [p for p in all_none_patterns(ps) if any(p.values())]
+    if fam == NORMFIT:
+        pats = [{p: True for p in ps}]
+    for pat in pats:
+        for meth in ("cdf", "icdf", "pdf"):
+            cases.append(dict(pattern=pat, meth=meth))
+    return cases
+
+
+def make_lemma_contract(fam):
+    ps = fam_params(fam)
+
+    class Lemma(Contract):
+        """D(**theta).m(x) == D(**rest).m(x, **theta): real constructor and real methods, nothing summarised"""
+
+        def case_label(self, case):
+            return f"{case['meth']},override=" + "".join("1" if case["pattern"][p] else "0" for p in ps)
+
+        def inputs(self, itp, case):
+            return [], {}
+
+        def body(self, itp, case, args, kwargs):
+            cx = itp.cx
+            theta = {p: real(cx, f"theta.{p}") for p in ps}
+            adm = {p: theta[p].t for p in ps}
+            admissible_explicit(cx, fam, adm)
+            n = cx.sym("n", "int")
+            cx.assume(T.ge(n, 1))
+            x = sym_array(cx, "x", (n,))
+            over = {p: theta[p] for p in ps if case["pattern"][p]}
+            rest = {p: theta[p] for p in ps if not case["pattern"][p]}
+            a = itp.instantiate(ClassRef(D + fam), [], dict(theta))
+            b = itp.instantiate(ClassRef(D + fam), [], dict(rest))
+            ra = itp.call_value(itp.get_attr(a, case["meth"]), [x], {})
+            rb = itp.call_value(itp.get_attr(b, case["meth"]), [x], dict(over))
+            return (ra, rb, n)
+
+        def post(self, itp, case, inp, out):
+            cx = itp.cx
+            if out.outcome != "return":
+                cx.oblige("lemma.returns", False, "post", f"raised {out.exc}: {out.msg}")
+                return
+            ra, rb, n = out.value
+            idx = fresh_index(cx, (n,))
+            if shape_of(ra) != shape_of(rb) and len(shape_of(ra)) != len(shape_of(rb)):
+                cx.oblige("lemma.shape", False, "post")
+                return
+            cx.oblige("lemma.explicit_equals_constructed", T.eq(elem(ra, idx), elem(rb, idx)), "post",
+                      "explicit parameters give exactly the result of an instance constructed with them")
+            cx.oblige("lemma.no_nan", T.land(T.lnot(elem_nan(ra, idx)), T.lnot(elem_nan(rb, idx))) if fam != "ExponentiatedWeibullDistribution" or case["meth"] != "pdf" else T.eq(elem_nan(ra, idx), elem_nan(rb, idx)), "post")
+
+        def replay(self, case, ob):
+            return replay_method(fam, case["meth"], dict(pattern=case["pattern"], x="array"), ob)
+    Lemma.__name__ = f"Lemma_{fam}"
+    return contract(None, ["C05"], _lemma_cases(fam), name=f"lemma.explicit_equals_constructed.{fam}")(Lemma)
+
+
+for _fam in ALL_FAMS:
+    make_lemma_contract(_fam)
+
+
+# =============================================================================== _fit_mle (C11, C12)
+def _fit_cases(fam):
+    ps = fam_params(fam)
+    return [dict(pattern=pat) for pat in all_none_patterns(ps) if not all(pat.values())]
+
+
+def make_fit_contract(fam):
+    ps = fam_params(fam)
+
+    class Fit(Contract):
+        """_fit_mle: scipy's fit is called on the data with the current parameters as start values and with
+        exactly the fixing keywords scipy accepts; fixed parameters keep their value; unpacking the result is
+        the inverse of _get_scipy_parameters"""
+
+        def case_label(self, case):
+            return "fixed=" + "".join("1" if case["pattern"][p] else "0" for p in ps)
+
+        def inputs(self, itp, case):
+            cx = itp.cx
+            self.obj, self.before = make_self(cx, fam)
+            self.fx = {}
+            for p in ps:
+                if case["pattern"][p]:
+                    f = real(cx, f"self.f_{p}")
+                    cx.assume(T.eq(f.t, self.before[p]), "constructor invariant: p = f_p")
+                    self.obj.fields["f_" + p] = f
+                    self.fx[p] = f.t
+            n = cx.sym("n", "int")
+            cx.assume(T.ge(n, 2))
+            self.sample = sym_array(cx, "sample", (n,))
+            if fam != NORMFIT:
+                self.slots_before = pad(fam, spec_slots(cx, fam, self.before))
+            return [self.obj, self.sample], {}
+
+        def post(self, itp, case, inp, out):
+            cx = itp.cx
+            if out.outcome != "return":
+                cx.oblige("post.fit_succeeds", False, "post", f"fitting with fixed={self.case_label(case)} raised {out.exc}: {out.msg}")
+                return
+            after = {}
+            for p in ps:
+                v = itp.get_attr(self.obj, p)
+                after[p] = term_of(v)
+            for p in self.fx:
+                cx.oblige(f"post.fit_keeps_fixed.{p}", T.eq(after[p], self.fx[p]), "post", "fixed parameter unchanged by fitting")
+                cx.oblige(f"post.f_attr_unchanged.{p}", T.eq(term_of(itp.get_attr(self.obj, 'f_' + p)), self.fx[p]), "post")
+            if fam == NORMFIT:
+                return
+            calls = cx.ghost.get("fit_calls", [])
+            cx.oblige("post.fit_called_once", len(calls) == 1 and calls[0]["dist"] == scipy_name(fam), "post", "exactly one scipy fit of the documented family")
+            if len(calls) != 1:
+                return
+            call = calls[0]
+            cx.oblige("post.fit_data", call["data"] is self.sample, "post", "the data handed to scipy is the sample itself")
+            res = [term_of(r) for r in call["result"]]
+            # free parameters are estimated: they are the result slots mapped back
+            for p in ps:
+                if p not in self.fx:
+                    is_result = T.lor(*[T.eq(after[p], r) for r in res]) if fam not in ("LogNormalDistribution", "GeneralizedGammaDistribution") else True
+                    cx.oblige(f"post.free_is_estimated.{p}", is_result, "post", "free parameter taken from the fit result")
+            admissible_explicit(cx, fam, after)
+            slots_after = pad(fam, spec_slots(cx, fam, after))
+            names = SCIPY_SLOTS[scipy_name(fam)]
+            # scipy side condition: result scale > 0 (so that log/1/x inverses are defined)
+            cx.assume(T.gt(res[-1], 0), "scipy fit returns scale > 0")
+            for nm, sa, r in zip(names, slots_after, res):
+                cx.oblige(f"post.fit_unpack.{nm}", T.eq(sa, r), "post", "evaluating with the fitted parameters uses exactly scipy's estimate (unpack = inverse of pack)")
+            # start values: current parameters through the same map (C12)
+            ns = len(names) - 2
+            start = call["start"]
+            for i in range(len(start)):
+                cx.oblige(f"post.start.{names[i]}", T.eq(term_of(start[i]), self.slots_before[i]), "post", "start value = current parameter")
+            for kw, i in (("loc", ns), ("scale", ns + 1)):
+                if kw in call["kwargs"]:
+                    cx.oblige(f"post.start.{kw}", T.eq(term_of(call["kwargs"][kw]), self.slots_before[i]), "post", "start value = current parameter")
+            # fixing keywords name the slot of the parameter they fix, with the mapped value
+            fixed = call["fixed"]
+            for i, nm in enumerate(names):
+                owners = [p for p in ps if FAMILIES[fam]["fit_keys"].get(p) in (f"f{i}" if i < ns else None, "floc" if i == ns else None, "fscale" if i == ns + 1 else None)]
+                must_fix = [p for p in owners if p in self.fx]
+                if must_fix:
+                    cx.oblige(f"pre-of.scipy.fit.fixes.{nm}", fixed[i] is not None and T.eq(term_of(fixed[i]), self.slots_before[i]), "pre",
+                              f"slot {nm} fixed at the mapped value of {must_fix[0]}")
+                elif fixed[i] is not None:
+                    # slots without a virocon parameter (loc of lognorm/exponweib/gengamma = 0, vonmises scale = 1)
+                    cx.oblige(f"pre-of.scipy.fit.const.{nm}", T.eq(term_of(fixed[i]), self.slots_before[i]), "pre", f"slot {nm} fixed at its documented constant")
+
+        def replay(self, case, ob):
+            import numpy as np
+            import virocon.distributions as vd
+            cls = getattr(vd, fam)
+            rng = np.random.default_rng(7)
+            base = {"alpha": 1.3, "beta": 1.7, "gamma": 0.0, "mu": 0.2, "sigma": 0.6, "delta": 2.2, "m": 1.4, "c": 1.8, "lambda_": 0.7,
+                    "kappa": 1.9, "mu_norm": 2.5, "sigma_norm": 0.8}
+            fx = {"f_" + p: base[p] for p in ps if case["pattern"][p]}
+            gen = cls(**{p: base[p] for p in ps})
+            data = gen.draw_sample(400, random_state=rng)
+            inst = cls(**fx)
+            try:
+                inst.fit(data)
+            except Exception as e:
+                return {"confirmed": True, "detail": f"{fam}(**{fx}).fit(data) raised {type(e).__name__}: {e}"}
+            bad = [p for p in ps if case["pattern"][p] and abs(getattr(inst, p) - base[p]) > 1e-12 * max(1, abs(base[p]))]
+            return {"confirmed": bool(bad), "detail": f"{fam}(**{fx}).fit(data) -> {inst.parameters}; fixed changed: {bad}"}
+    Fit.__name__ = f"Fit_{fam}"
+    return contract(D + fam + "._fit_mle", ["C11", "C12"], _fit_cases(fam), name=f"fit_mle.{fam}")(Fit)
+
+
+for _fam in ALL_FAMS:
+    make_fit_contract(_fam)
+
+
+# =============================================================================== draw_sample / _get_rvs_size (C07)
+from vf.lib.scipy_models import _DRAW, _SEED, _NEXT  # noqa: E402
+
+
+def make_draw_contract(fam):
+    ps = fam_params(fam)
+    sname = scipy_name(fam)
+    none = {p: False for p in ps}
+    full = {p: True for p in ps}
+    cases = []
+    for rs in ("none", "seed", "generator"):
+        cases.append(dict(rs=rs, pattern=none, pk="scalar"))
+        cases.append(dict(rs=rs, pattern=full, pk="scalar"))
+        cases.append(dict(rs=rs, pattern=full, pk="array"))
+
+    class Draw(Contract):
+        """draw_sample(n, *explicit, random_state): scipy rvs with the same parameter map as cdf, the requested
+        size, and the caller's random_state (so that the sample's law is the cdf proved in C05 and equal seeds
+        reproduce the sample)"""
+
+        def case_label(self, case):
+            return f"random_state={case['rs']},explicit=" + "".join("1" if case["pattern"][p] else "0" for p in ps) + f",params={case['pk']}"
+
+        def setup(self, itp, case):
+            itp.summaries[D + fam + "._get_scipy_parameters"] = map_summary(fam)
+
+        def inputs(self, itp, case):
+            cx = itp.cx
+            self.obj, self.selfvals = make_self(cx, fam)
+            self.n = cx.sym("n", "int")
+            cx.assume(T.ge(self.n, 1))
+            self.m = cx.sym("m", "int")
+            cx.assume(T.ge(self.m, 1))
+            self.explicit = explicit_args(cx, fam, case["pattern"], case["pk"], self.m)
+            if case["rs"] == "none":
+                self.rs = None
+            elif case["rs"] == "seed":
+                self.rs = integer(cx, "seed")
+                cx.assume(T.ge(self.rs.t, 0))
+                self.state0 = _SEED(self.rs.t)
+            else:
+                self.state0 = cx.sym("gen_state", "int")
+                self.rs = RngVal(self.state0, "caller's generator")
+            kw = {p: v for p, v in self.explicit.items() if v is not None}
+            kw["random_state"] = self.rs
+            return [self.obj, Sym(self.n)], kw
+
+        def post(self, itp, case, inp, out):
+            cx = itp.cx
+            if out.outcome != "return":
+                cx.oblige("post.returns", False, "post", f"raised {out.exc}: {out.msg}")
+                return
+            r = out.value
+            want_shape = (self.n,) if case["pk"] == "scalar" else (self.n, self.m)
+            if not isinstance(r, SArr) or r.ndim != len(want_shape):
+                cx.oblige("post.shape", False, "post", f"result {r!r}")
+                return
+            for a, b in zip(r.shape, want_shape):
+                cx.oblige("post.size", T.eq(a, b), "post", "requested size honoured")
+            idx = fresh_index(cx, want_shape)
+            st = getattr(r, "rng_state", None)
+            if st is None:
+                cx.oblige("post.rvs", False, "post", "result is not a scipy rvs draw")
+                return
+            if case["rs"] != "none":
+                cx.oblige("post.seed_threading", T.eq(st, self.state0), "post", "the draw consumes the caller's random_state")
+                if case["rs"] == "generator":
+                    total = self.n if case["pk"] == "scalar" else self.n * self.m
+                    cx.oblige("post.generator_advanced", T.eq(self.rs.state, _NEXT(self.state0, total)), "post")
+            eff = effective(cx, fam, self.selfvals, self.explicit, idx[-1:] if case["pk"] == "array" else ())
+            admissible_explicit(cx, fam, eff)
+            slots = pad(fam, spec_slots(cx, fam, eff))
+            flat = idx[0] if case["pk"] == "scalar" else idx[0] * self.m + idx[1]
+            u = _DRAW(st, flat)
+            want = sp_fn(sname, "ppf", len(slots))(u, *[T.zr(s) for s in slots])
+            cx.oblige("post.rvs_params", T.eq(elem(r, idx), want), "post",
+                      "sample element k is the family quantile (same map as cdf/icdf) of the k-th uniform of the generator")
+            cx.oblige("frame.draw_sample", not self.obj.writes, "frame", f"sampling writes no attribute of the distribution (wrote: {self.obj.writes})")
+
+        def replay(self, case, ob):
+            import numpy as np
+            import virocon.distributions as vd
+            cls = getattr(vd, fam)
+            base = {"alpha": 1.3, "beta": 1.7, "gamma": 0.4, "mu": 0.2, "sigma": 0.6, "delta": 2.2, "m": 1.4, "c": 1.8, "lambda_": 0.7,
+                    "kappa": 1.9, "mu_norm": 2.5, "sigma_norm": 0.8}
+            self_kw = {p: base[p] for p in ps}
+            expl = {p: base[p] * 1.6 + 0.15 for p in ps if case["pattern"][p]}
+            ref_kw = dict(self_kw); ref_kw.update(expl)
+            a = cls(**self_kw).draw_sample(2000, **expl, random_state=11)
+            b = cls(**self_kw).draw_sample(2000, **expl, random_state=11)
+            u = cls(**ref_kw).cdf(np.sort(a))
+            dk = float(np.max(np.abs(u - (np.arange(1, 2001) - 0.5) / 2000)))
+            bad = (not np.array_equal(a, b)) or a.shape != (2000,) or dk > 0.09
+            return {"confirmed": bool(bad), "detail": f"{fam}: same-seed equal={np.array_equal(a, b)}, shape={a.shape}, KS distance to constructed cdf={dk:.4f} (DKW bound 0.09 at 1e-12)"}
+    Draw.__name__ = f"Draw_{fam}"
+    return contract(D + fam + ".draw_sample", ["C07", "C08", "C19"], cases, name=f"draw_sample.{fam}")(Draw)
+
+
+for _fam in ALL_FAMS:
+    make_draw_contract(_fam)
+
+
+@contract(D + "Distribution._get_rvs_size", ["C07"], [dict(kinds=k) for k in
+                                                     [("s", "s"), ("s", "s", "s"), ("a", "s", "s"), ("s", "a", "s"), ("s", "s", "a"), ("a", "a", "s"), ("a", "a", "a"), ("s", "s", "s", "a")]],
+          name="rvs_size")
+class RvsSize(Contract):
+    """_get_rvs_size(n, pars) = (n, len(iterable par)) if any parameter is iterable else n"""
+
+    def case_label(self, case):
+        return "pars=" + "".join(case["kinds"])
+
+    def inputs(self, itp, case):
+        cx = itp.cx
+        self.n = integer(cx, "n")
+        self.m = cx.sym("m", "int")
+        cx.assume(T.ge(self.m, 1))
+        pars = []
+        for i, k in enumerate(case["kinds"]):
+            pars.append(real(cx, f"p{i}") if k == "s" else sym_array(cx, f"p{i}", (self.m,)))
+        return [self.n, tuple(pars)], {}
+
+    def post(self, itp, case, inp, out):
+        cx = itp.cx
+        if out.outcome != "return":
+            cx.oblige("post.returns", False, "post", f"raised {out.exc}")
+            return
+        r = out.value
+        if "a" in case["kinds"]:
+            ok = isinstance(r, tuple) and len(r) == 2
+            cx.oblige("post.rvs_size.tuple", T.land(T.eq(term_of(r[0]), self.n.t), T.eq(term_of(r[1]), self.m)) if ok else False, "post")
+        else:
+            cx.oblige("post.rvs_size.scalar", T.eq(term_of(r), self.n.t) if is_scalar(r) else False, "post")
+
+
+# =============================================================================== lemma.eval_fit_eval (C05, C12, C19)
+def make_history_contract(fam):
+    ps = fam_params(fam)
+
+    class Hist(Contract):
+        """history construct -> evaluate -> fit -> evaluate: the second evaluation uses exactly the fitted
+        parameters (no stale state survives a fit), and evaluation before the fit does not change its outcome"""
+
+        def case_label(self, case):
+            return case["meth"]
+
+        def inputs(self, itp, case):
+            return [], {}
+
+        def body(self, itp, case, args, kwargs):
+            cx = itp.cx
+            theta = {p: real(cx, f"theta.{p}") for p in ps}
+            admissible_explicit(cx, fam, {p: theta[p].t for p in ps})
+            n = cx.sym("n", "int")
+            cx.assume(T.ge(n, 2))
+            x = sym_array(cx, "x", (n,))
+            sample = sym_array(cx, "sample", (n,))
+            a = itp.instantiate(ClassRef(D + fam), [], dict(theta))
+            r0 = itp.call_value(itp.get_attr(a, case["meth"]), [x], {})
+            itp.call_value(itp.get_attr(a, "fit"), [sample], {})
+            after = {p: term_of(itp.get_attr(a, p)) for p in ps}
+            # requires: the data are regular enough for the estimates to be admissible (e.g. positive mean / std)
+            admissible_explicit(cx, fam, after)
+            r1 = itp.call_value(itp.get_attr(a, case["meth"]), [x], {})
+            return (r1, after, x, n)
+
+        def post(self, itp, case, inp, out):
+            cx = itp.cx
+            if out.outcome != "return":
+                cx.oblige("lemma.returns", False, "post", f"raised {out.exc}: {out.msg}")
+                return
+            r1, after, x, n = out.value
+            idx = fresh_index(cx, (n,))
+            admissible_explicit(cx, fam, after)
+            slots = pad(fam, spec_slots(cx, fam, after))
+            want = sp_fn(scipy_name(fam), METHODS[case["meth"]], len(slots))(T.zr(elem(x, idx)), *[T.zr(t) for t in slots])
+            if fam == "ExponentiatedWeibullDistribution" and case["meth"] == "pdf":
+                want = T.ite(T.gt(elem(x, idx), 0), want, Fraction(0))
+            cx.oblige("lemma.eval_after_fit_uses_fitted_parameters", T.eq(elem(r1, idx), want), "post")
+            if fam == NORMFIT:
+                return
+            calls = cx.ghost.get("fit_calls", [])
+            if len(calls) == 1:
+                res = [term_of(t) for t in calls[0]["result"]]
+                for nm, sa, r in zip(SCIPY_SLOTS[scipy_name(fam)], slots, res):
+                    cx.oblige(f"lemma.fit_eval_roundtrip.{nm}", T.eq(sa, r), "post", "the likelihood virocon evaluates after fitting is scipy's at its estimate")
+    Hist.__name__ = f"Hist_{fam}"
+    return contract(None, ["C05", "C12", "C19"], [dict(meth=m) for m in ("cdf", "icdf", "pdf")], name=f"lemma.eval_fit_eval.{fam}")(Hist)
+
+
+for _fam in ALL_FAMS:
+    make_history_contract(_fam)
